@@ -66,6 +66,9 @@ func runVCs(vcs []VC, workDir string, timeout time.Duration, par int) []vcResult
 				to = 1 * time.Second
 			}
 			out[i].res = solve(vcs[i].Script, file, to, vcs[i].ExpectSat)
+			if st := out[i].res.Status; (st == "unknown" || st == "timeout") && vcs[i].StageBase != "" {
+				out[i].res = solveStaged(vcs[i], file, to, out[i].res)
+			}
 		}(i)
 	}
 	wg.Wait()
@@ -78,6 +81,7 @@ func sanitizeFile(s string) string {
 }
 
 func devCmd(args []string) {
+	devTier := envOr("GOVC_TIER", "quick")
 	fs := flag.NewFlagSet("dev", flag.ExitOnError)
 	filter := fs.String("fn", "", "substring filter on obligation name")
 	safe := fs.Bool("safe", false, "include safety obligations")
@@ -99,7 +103,7 @@ func devCmd(args []string) {
 	fmt.Printf("loaded in %.1fs, %d functions, %d contracts\n", time.Since(start).Seconds(), len(w.allFuncs), len(w.contracts))
 	vcs := w.propVCs(prop, *safe)
 	if d := propDrivers[prop]; d != nil && d.extra != nil {
-		vcs = append(vcs, d.extra(w, "quick")...)
+		vcs = append(vcs, d.extra(w, devTier)...)
 	}
 	var sel []VC
 	for _, v := range vcs {
